@@ -10,6 +10,7 @@ def main(tier):
     segments.membership(P, rep)
     segments.plane_call_sites(P, rep)
     segments.line_siblings(P, rep)
+    segments.kernel_interpolation(P, rep)
     rep.assumptions.append("the line/arc construction itself (Utilities::distance_point_from_curved_planes, 650 lines of trigonometry over reals) "
                            "and the Newton closest-point search are NOT decided: a change inside them is invisible to this check")
     rep.explanation = ("Membership predicates as normalised relations over the two distances, inclusive depth gate, agreement of the two "
